@@ -37,6 +37,16 @@ CHECKS.update({
  "C12": ("M", TECH_M, "z3 decides the wiring and non-interference obligations: minutes[key] read with its own key and added exactly; interval definitions of Isha/Fajr with the flag preserved; get_imsaak's three branches and extreme branch; weather only into the sunrise/sunset kernel and absent weather = default; get_asr / get_fajr_isha independent of the parameters they must not read.",
          "compositional (per function) rather than end-to-end; libm as uninterpreted functions."),
 })
+CHECKS.update({
+ "C01": ("M", TECH_M, "z3 decides over the symbolically executed MIR: JulianDay::new = independent day count + 1721424.5 - gmt/24 for every date 1583..9999; get_ra_interp_deltas = differences of the unwrapped RA triple in every wrap case (exact LRA); the Dhuhr part of get_shur_dhuhr_magh puts the hour angle of the interpolated Sun within 10 s of zero (solver-checked proof script); Dhuhr is Ok through get_hours and the policies.",
+         "PARTIAL: the accuracy of Astro::new (VSOP87/nutation/sidereal polynomial) and parallax is outside the claim - the oracle interpolates the library's own ephemeris triple; a change inside the ephemeris tables is invisible to this check."),
+ "C02": ("M", TECH_M, "z3/nlsat decides the rise/set identity of get_shur_magh_m_0_adj at h0 = -0.833 (+-0.05) with adj in [0,0.5] for |lat| <= 60, the Shurooq-at-m0-adj / Maghrib-at-m0+adj wiring of get_shur_dhuhr_magh with the caller's weather, and that weather reaches only this kernel with absent weather = default.",
+         "PARTIAL: the iterated correction's residual and the 'seconds only' size of the weather shift are not solver-decided; ephemeris accuracy outside."),
+ "C13": ("M", TECH_M, "z3 decides the code-level causes of day-to-day jumps: Julian Day = day number + const - gmt/24 (so consecutive dates are exactly 1 apart over every month/year/leap boundary), RA interpolation on the unwrapped triple in every wrap case, Dhuhr within 10 s of the interpolated transit.",
+         "PARTIAL: the numeric second-difference bounds depend on the smoothness of the real ephemeris (outside the claim)."),
+ "C20": ("M", TECH_M, "z3 decides that the GMT offset flows only into JulianDay::new and shifts the Julian Day by exactly -d/24, that longitude enters the transit only through sid + lon (congruence step) and that Dhuhr tracks the interpolated transit within 10 s.",
+         "PARTIAL: the end-to-end +-10 s covariance of all seven times against the real ephemeris is outside the claim."),
+})
 NA = {
  "C15": "quantifies over thread interleavings of std::thread::scope + mpsc; Kani does not model concurrency and no installed symbolic engine reaches Rust std threads (DESIGN.md §4 C15)",
  "C19": "process-level property (argv parsing by clap, files, serde_json text, exit status): outside the reach of symbolic execution of the crate (DESIGN.md §4 C19)",
